@@ -154,6 +154,7 @@ type seqRun struct {
 	prevLive                                                           map[uint64]string
 	leftEarly                                                          map[uint64]bool // handle values that left the table although it was not full and nothing was unexported
 	curFH                                                              []byte          // handle used by the current operation
+	aliasMut                                                           bool            // a mutating request went through a handle whose path now traverses a symbolic link
 	target                                                             string
 	nameInvalid                                                        bool
 	badName                                                            string
@@ -764,6 +765,20 @@ func (r *seqRun) step(i int, op Op) {
 		switch op.Op {
 		case "CREATE", "SETATTR", "WRITE", "COMMIT":
 			r.loose = true // the backend follows the final symbolic link: the effect lands on its target
+		}
+	}
+	if r.loose {
+		switch op.Op {
+		case "CREATE", "MKDIR", "SYMLINK", "MKNOD", "REMOVE", "RMDIR", "RENAME", "LINK":
+			via := r.viaSymlink(r.target)
+			if op.Op == "RENAME" {
+				via = via || r.viaSymlink(joinPath(r.h(op.H2).path, op.Name2))
+			}
+			if via {
+				// the server keys its caches by the path the handle was issued for; the backend resolved that
+				// path through a symbolic link, so the change landed in a directory known under another path
+				r.aliasMut = true
+			}
 		}
 	}
 	strictBefore := r.strictAttrs
@@ -1581,8 +1596,13 @@ func (r *seqRun) stepReaddir(name string, op Op, hr handleRef, base *mnode) {
 	}
 	want := r.model.children(hr.path)
 	r.o.Checks++
+	// a listing that misses or invents an entry after a mutation went through a symlinked handle path is the
+	// recorded finding about path-keyed caches; it gets one canonical signature
+	const aliased = "after-a-mutation-through-a-handle-whose-path-traverses-a-symlink"
 	for _, n := range want {
-		if seen[n] == 0 {
+		if seen[n] == 0 && r.aliasMut {
+			r.vio(r.own("readdir-missing-entry"), aliased, "%s: %q is in directory %s but not in the (cached) listing; earlier in this history a mutating request used a handle whose path the backend resolved through a symbolic link", name, n, hr.path)
+		} else if seen[n] == 0 {
 			r.vio(r.own("readdir-missing-entry"), "plus="+fmt.Sprint(plus)+",last="+r.nearestMut(joinPath(hr.path, n)), "%s: %q is in directory %s but not in the listing (last mutation: %s)", name, n, hr.path, r.nearestMut(joinPath(hr.path, n)))
 		} else if seen[n] > 1 {
 			r.vio(r.own("readdir-duplicate-entry"), "plus="+fmt.Sprint(plus), "%s: %q listed %d times", name, n, seen[n])
@@ -1590,6 +1610,10 @@ func (r *seqRun) stepReaddir(name string, op Op, hr handleRef, base *mnode) {
 		delete(seen, n)
 	}
 	for n := range seen {
+		if r.aliasMut {
+			r.vio(r.own("readdir-phantom-entry"), aliased, "%s: the (cached) listing of %s contains %q which does not exist; earlier in this history a mutating request used a handle whose path the backend resolved through a symbolic link", name, hr.path, n)
+			continue
+		}
 		r.vio(r.own("readdir-phantom-entry"), "plus="+fmt.Sprint(plus)+",last="+r.nearestMut(joinPath(hr.path, n)), "%s: listing of %s contains %q which does not exist (last mutation: %s)", name, hr.path, n, r.nearestMut(joinPath(hr.path, n)))
 	}
 }
